@@ -117,6 +117,10 @@ func (l *Lexer) NextToken() *token.Token {
 		}
 		return token.Intern(token.STRING, str)
 	case 0:
+		if l.pos <= len(l.input) {
+			// An actual NUL byte in the input, not the end of it.
+			return token.Intern(token.ILLEGAL, string(ch))
+		}
 		return l.EOLEOF()
 	case '.':
 		if nextChar == '.' { // DOTDOT
@@ -233,6 +237,8 @@ func (l *Lexer) readString(sep byte) (string, bool) {
 			}
 		case ch == sep:
 			return buf.String(), true
+		case ch == 0 && l.pos <= len(l.input):
+			// NUL byte inside the string, not the end of the input: part of the content.
 		case ch == 0:
 			return buf.String(), false
 		}
@@ -258,13 +264,9 @@ func (l *Lexer) readIdentifier() string {
 	return string(l.input[pos:l.pos])
 }
 
-func notEOL(ch byte) bool {
-	return ch != '\n' && ch != 0
-}
-
 func (l *Lexer) readLineComment() string {
 	pos := l.pos - 1
-	for notEOL(l.peekChar()) {
+	for l.pos < len(l.input) && l.input[l.pos] != '\n' {
 		l.pos++
 	}
 	return strings.TrimSpace(string(l.input[pos:l.pos]))
@@ -278,10 +280,11 @@ func (l *Lexer) readBlockComment() string {
 	pos1 := l.pos - 1
 	l.pos++
 	ch := l.readChar()
-	for ch != 0 && !l.endBlockComment(ch) {
+	// end of input is when readChar went past the end, a NUL byte is just content.
+	for l.pos <= len(l.input) && !l.endBlockComment(ch) {
 		ch = l.readChar()
 	}
-	if ch == 0 {
+	if l.pos > len(l.input) {
 		l.pos--
 	} else {
 		l.pos++
